@@ -22,6 +22,7 @@ import (
 	"sort"
 	"strings"
 	"sync"
+	"time"
 
 	"github.com/spf13/afero"
 	phttp "github.com/yandex/pandora/components/guns/http"
@@ -69,6 +70,7 @@ type hwObs struct {
 
 type hwOut struct {
 	ID      int             `json:"id"`
+	K       int             `json:"k"` // multi-entry file cases: which entry this line reports (1-based), else 0
 	C       json.RawMessage `json:"c"`
 	Obs     hwObs           `json:"obs"`
 	Samples []hwSample      `json:"samples"`
@@ -79,6 +81,7 @@ type hwOut struct {
 }
 
 const hwOptHostName = "opt.host.test"
+const hwAmmoHost2Name = "ammo2.host.test:8080" // a second Host an ammo file may switch to (never dialled)
 
 type hwEnv struct {
 	rec       *targets.Recorder
@@ -136,6 +139,8 @@ func (e *hwEnv) renderHost(tok string, ssl bool) string {
 		return e.ammoHost(ssl)
 	case "OPTHOST":
 		return hwOptHostName
+	case "AMMOHOST2":
+		return hwAmmoHost2Name
 	}
 	return tok
 }
@@ -147,6 +152,8 @@ func (e *hwEnv) projectHost(h string, ssl bool) string {
 		return "AMMOHOST"
 	case hwOptHostName:
 		return "OPTHOST"
+	case hwAmmoHost2Name:
+		return "AMMOHOST2"
 	case targets.HostOnly(e.target(ssl).Addr()):
 		return "TARGETHOST"
 	}
@@ -310,6 +317,12 @@ func (e *hwEnv) runCase(cs hwCase) hwOut {
 		out.Err = "provider run: " + err.Error()
 	}
 	out.Samples = append(out.Samples, e.agg.drain()...)
+	e.observe(&out, c.SSL)
+	return out
+}
+
+// observe fills out.Obs from what the servers recorded since the last drain.
+func (e *hwEnv) observe(out *hwOut, ssl bool) {
 	for _, ev := range e.rec.Drain() {
 		if ev.Ev != "Req" {
 			continue
@@ -319,7 +332,7 @@ func (e *hwEnv) runCase(cs hwCase) hwOut {
 			continue
 		}
 		out.Obs.Server, out.Obs.TLS, out.Obs.Method, out.Obs.URI = ev.Server, ev.TLS, ev.Method, ev.URI
-		out.Obs.Host = e.projectHost(ev.Host, c.SSL)
+		out.Obs.Host = e.projectHost(ev.Host, ssl)
 		out.Obs.Body = ev.Body
 		out.Obs.Hdr = ev.Hdr
 		if out.Obs.Hdr == nil {
@@ -329,7 +342,155 @@ func (e *hwEnv) runCase(cs hwCase) hwOut {
 			out.Obs.Hdr = append(out.Obs.Hdr, targets.Header{N: "Transfer-Encoding", V: ev.TE})
 		}
 	}
-	return out
+}
+
+// ---------------------------------------------------------------------------------------- multi-entry files
+
+type hwFileEntry struct {
+	HL   []hwHV `json:"hl"` // header lines written before the entry (uri/uripost) / the entry's own fields (raw, json)
+	URI  string `json:"uri"`
+	Body string `json:"body"`
+}
+
+type hwFileC struct {
+	Fmt     string        `json:"fmt"`
+	SSL     bool          `json:"ssl"`
+	Preload bool          `json:"preload"`
+	Opts    []hwHV        `json:"opts"`
+	Entries []hwFileEntry `json:"entries"`
+}
+
+// hwRenderFile renders a multi-entry ammo file: uri/uripost put the header lines between the entries, raw/json give
+// every entry its own fields.
+func (e *hwEnv) hwRenderFile(c *hwFileC) (typ, file string) {
+	var b strings.Builder
+	for _, en := range c.Entries {
+		switch c.Fmt {
+		case "uri", "uripost":
+			for _, h := range en.HL {
+				fmt.Fprintf(&b, "[%s: %s]\n", h.N, e.renderHost(h.V, c.SSL))
+			}
+			if c.Fmt == "uri" {
+				fmt.Fprintf(&b, "%s\n", en.URI)
+			} else {
+				fmt.Fprintf(&b, "%d %s\n%s\n", len(en.Body), en.URI, en.Body)
+			}
+		case "raw":
+			var r strings.Builder
+			fmt.Fprintf(&r, "GET %s HTTP/1.1\r\n", en.URI)
+			for _, h := range en.HL {
+				fmt.Fprintf(&r, "%s: %s\r\n", h.N, e.renderHost(h.V, c.SSL))
+			}
+			if en.Body != "" {
+				fmt.Fprintf(&r, "Content-Length: %d\r\n", len(en.Body))
+			}
+			r.WriteString("\r\n")
+			r.WriteString(en.Body)
+			fmt.Fprintf(&b, "%d\n%s\n", r.Len(), r.String())
+		case "json":
+			m := map[string]interface{}{"method": "GET", "uri": en.URI}
+			hm := map[string]string{}
+			for _, h := range en.HL {
+				if h.N == "Host" {
+					m["host"] = e.renderHost(h.V, c.SSL)
+				} else {
+					hm[h.N] = h.V
+				}
+			}
+			if len(hm) > 0 {
+				m["headers"] = hm
+			}
+			if en.Body != "" {
+				m["body"] = en.Body
+			}
+			js, err := json.Marshal(m)
+			if err != nil {
+				panic(err)
+			}
+			b.Write(js)
+			b.WriteByte('\n')
+		default:
+			panic("format " + c.Fmt)
+		}
+	}
+	return map[string]string{"uri": "uri", "uripost": "uripost", "raw": "raw", "json": "http/json"}[c.Fmt], b.String()
+}
+
+// runFile plays one multi-entry file through ONE provider (stream or preload) and one gun, entry after entry, and
+// reports one line per entry.
+func (e *hwEnv) runFile(cs hwCase) []hwOut {
+	var c hwFileC
+	if err := json.Unmarshal(cs.C, &c); err != nil {
+		panic(err)
+	}
+	yamlShape := cs.ID%2 == 1
+	via := map[bool]string{false: "viper-map", true: "yaml-map"}[yamlShape]
+	typ, file := e.hwRenderFile(&c)
+	path := fmt.Sprintf("/hw/f%d.ammo", cs.ID)
+	if err := afero.WriteFile(e.fs, path, []byte(file), 0o644); err != nil {
+		panic(err)
+	}
+	defer e.fs.Remove(path)
+	pm := map[string]interface{}{"type": typ, "file": path, "limit": len(c.Entries)}
+	if len(c.Opts) > 0 {
+		opts := []interface{}{}
+		for _, o := range c.Opts {
+			opts = append(opts, fmt.Sprintf("[%s: %s]", o.N, e.renderHost(o.V, c.SSL)))
+		}
+		pm["headers"] = opts
+	}
+	if c.Preload {
+		pm["preload"] = true
+		via += " preload"
+	}
+	outs := []hwOut{}
+	fail := func(msg string) []hwOut {
+		for k := range c.Entries {
+			outs = append(outs, hwOut{ID: cs.ID, K: k + 1, C: cs.C, Obs: hwObs{Hdr: []targets.Header{}}, Samples: []hwSample{}, Err: msg, File: file, Via: via})
+		}
+		return outs
+	}
+	prov, err := hwDecodeProvider(pm, yamlShape)
+	if err != nil {
+		return fail("provider: " + err.Error())
+	}
+	g, err := e.gun(c.SSL, false, nil, "", yamlShape)
+	if err != nil {
+		return fail("gun: " + err.Error())
+	}
+	e.rec.Drain()
+	e.agg.drain()
+	stop := hwRunProvider(prov, e.log)
+	acq := 0
+	for {
+		a, ok := prov.Acquire()
+		if !ok {
+			break
+		}
+		acq++
+		g.Shoot(a)
+		prov.Release(a)
+		if acq <= len(c.Entries) {
+			o := hwOut{ID: cs.ID, K: acq, C: cs.C, Obs: hwObs{Hdr: []targets.Header{}}, Samples: append([]hwSample{}, e.agg.drain()...), File: file, Via: via}
+			e.observe(&o, c.SSL)
+			outs = append(outs, o)
+		}
+		if acq > len(c.Entries)+1 {
+			break
+		}
+	}
+	runErr := ""
+	if err := stop(); err != nil {
+		runErr = "provider run: " + err.Error()
+	}
+	for k := len(outs); k < len(c.Entries); k++ { // entries the provider never handed out
+		outs = append(outs, hwOut{ID: cs.ID, K: k + 1, C: cs.C, Obs: hwObs{Hdr: []targets.Header{}}, Samples: []hwSample{}, File: file, Via: via})
+	}
+	for i := range outs {
+		outs[i].Acq = acq
+		outs[i].Err = runErr
+	}
+	return outs
 }
 
 func httpwireMain(args []string) {
@@ -360,6 +521,12 @@ func httpwireMain(args []string) {
 			if err := json.Unmarshal([]byte(ln), &cs); err != nil {
 				panic(err)
 			}
+			if strings.Contains(string(cs.C), `"entries"`) {
+				for _, o := range e.runFile(cs) {
+					w.Emit(o)
+				}
+				continue
+			}
 			w.Emit(e.runCase(cs))
 		}
 	case "conn":
@@ -372,18 +539,23 @@ func httpwireMain(args []string) {
 // ---------------------------------------------------------------------------------------- conn mode
 
 type hwConnEv struct {
-	Ev        string `json:"ev"` // Run | Shoot | Conn | Req | End
-	Run       int    `json:"run"`
-	N         int    `json:"n"`
-	R         int    `json:"r"`
-	KeepAlive bool   `json:"keepalive"`
-	SSL       bool   `json:"ssl"`
-	Inst      string `json:"inst"`
-	URI       string `json:"uri"`
-	Conn      string `json:"conn"`
-	State     string `json:"state"`
-	Proto     int    `json:"proto"`
-	Net       int    `json:"net"`
+	Ev        string   `json:"ev"` // Run | Shoot | Conn | Req | End
+	Run       int      `json:"run"`
+	N         int      `json:"n"`
+	R         int      `json:"r"`
+	KeepAlive bool     `json:"keepalive"`
+	SSL       bool     `json:"ssl"`
+	Inst      string   `json:"inst"`
+	URI       string   `json:"uri"`
+	Conn      string   `json:"conn"`
+	State     string   `json:"state"`
+	Proto     int      `json:"proto"`
+	Net       int      `json:"net"`
+	OK        bool     `json:"ok"`                 // Shoot / Req: the exchange ended with a complete answer (sample proto 200, net 0)
+	Insts     []string `json:"insts,omitempty"`    // Run: the instances
+	Opts      string   `json:"opts,omitempty"`     // Run: non-default client options of the gun
+	GapMs     int      `json:"gap_ms,omitempty"`   // Run: scripted idle gap between the shots of an instance
+	Tolerant  bool     `json:"tolerant,omitempty"` // End: the run has a small response-header-timeout: exchanges may fail under load
 }
 
 // hwRecGun records which instance shot which request (the ammo's URI), then lets the real gun shoot.
@@ -392,6 +564,7 @@ type hwRecGun struct {
 	inst  string
 	mu    *sync.Mutex
 	shots *[]hwConnEv
+	agg   *hwAgg // this instance's own aggregator view
 }
 
 func (g *hwRecGun) Shoot(a core.Ammo) {
@@ -400,22 +573,77 @@ func (g *hwRecGun) Shoot(a core.Ammo) {
 		panic(fmt.Sprintf("hwRecGun: ammo %T", a))
 	}
 	req, _ := ha.Request() // the sample acquired here is dropped; Request() is the only accessor of the URI
-	g.mu.Lock()
-	*g.shots = append(*g.shots, hwConnEv{Ev: "Shoot", Inst: g.inst, URI: req.URL.RequestURI()})
-	g.mu.Unlock()
+	uri := req.URL.RequestURI()
 	g.Gun.Shoot(a)
+	done := false
+	if g.agg != nil {
+		for _, s := range g.agg.peekNew() {
+			done = s.Proto == 200 && s.Net == 0
+		}
+	}
+	g.mu.Lock()
+	*g.shots = append(*g.shots, hwConnEv{Ev: "Shoot", Inst: g.inst, URI: uri, OK: done})
+	g.mu.Unlock()
+}
+
+// hwConnRun is one connection run: n instances x r requests, optional documented client options and a scripted
+// idle gap between the shots of an instance.
+type hwConnRun struct {
+	ssl, ka bool
+	n, r    int
+	opts    map[string]interface{} // client options of the gun set to distinctive non-default values
+	optNote string
+	gap     time.Duration // every instance idles at least this long between two shots
+}
+
+// hwClientOpts: every documented transport / dialer option of the http gun away from its default.  The two that
+// matter for connection reuse are far apart: response-header-timeout is small, idle-conn-timeout is minutes.
+const hwRHT = 150 * time.Millisecond
+
+func hwClientOpts() map[string]interface{} {
+	return map[string]interface{}{
+		"response-header-timeout": hwRHT.String(),
+		"idle-conn-timeout":       "10m",
+		"tls-handshake-timeout":   "90s",
+		"expect-continue-timeout": "3s",
+		"max-idle-conns":          7,
+		"max-idle-conns-per-host": 3,
+		"dial":                    map[string]interface{}{"timeout": "70s", "keep-alive": "31s", "fallback-delay": "250ms", "dual-stack": false},
+	}
 }
 
 func hwConnMain(w *vt.Writer, maxN, reqs int) {
-	fs := hwImport()
-	log := zap.NewNop()
-	run := 0
 	seed := int(vt.Seed())
+	run := 0
 	for _, ssl := range []bool{false, true} {
 		for _, ka := range []bool{true, false} {
 			for n := 1; n <= maxN; n++ {
 				run++
-				r := reqs + (seed+run)%3
+				hwConnOne(w, run, hwConnRun{ssl: ssl, ka: ka, n: n, r: reqs + (seed+run)%3})
+			}
+		}
+	}
+	// keep-alive on, non-default client options, with and without idle gaps longer than response-header-timeout
+	// (and far shorter than idle-conn-timeout): the instance must stay on its one connection
+	for _, ssl := range []bool{false, true} {
+		for _, gap := range []time.Duration{0, 4 * hwRHT} {
+			for n := 1; n <= 2; n++ {
+				run++
+				hwConnOne(w, run, hwConnRun{ssl: ssl, ka: true, n: n, r: 3 + (seed+run)%2, opts: hwClientOpts(),
+					optNote: "response-header-timeout=150ms idle-conn-timeout=10m dial.timeout=70s dial.keep-alive=31s tls-handshake-timeout=90s expect-continue-timeout=3s max-idle-conns=7 max-idle-conns-per-host=3",
+					gap:     gap})
+			}
+		}
+	}
+}
+
+func hwConnOne(w *vt.Writer, run int, cr hwConnRun) {
+	fs := hwImport()
+	log := zap.NewNop()
+	ssl, ka, n, r := cr.ssl, cr.ka, cr.n, cr.r
+	{
+		{
+			{
 				rec := &targets.Recorder{}
 				tgt := targets.NewHTTP("target", ssl, rec)
 				// one uri ammo file with n*r distinct URIs
@@ -436,11 +664,15 @@ func hwConnMain(w *vt.Writer, maxN, reqs int) {
 				if !ka {
 					gm["disable-keep-alives"] = true
 				}
+				for k, v := range cr.opts {
+					gm[k] = v
+				}
 				newGun, err := hwDecodeGunFactory(gm, yamlShape)
 				if err != nil {
 					panic(err)
 				}
-				agg := &hwAgg{}
+				aggs := []*hwAgg{}
+				insts := []string{}
 				shared := &hwShared{}
 				var mu sync.Mutex
 				shots := []hwConnEv{}
@@ -448,7 +680,9 @@ func hwConnMain(w *vt.Writer, maxN, reqs int) {
 				var wg sync.WaitGroup
 				guns := []core.Gun{}
 				for i := 0; i < n; i++ {
-					g, err := hwNewGun(newGun, agg, context.Background(), log, i, shared)
+					aggs = append(aggs, &hwAgg{inst: i})
+					insts = append(insts, fmt.Sprintf("i%d", i+1))
+					g, err := hwNewGun(newGun, aggs[i], context.Background(), log, i, shared)
 					if err != nil {
 						panic(err)
 					}
@@ -458,8 +692,11 @@ func hwConnMain(w *vt.Writer, maxN, reqs int) {
 					wg.Add(1)
 					go func(i int) {
 						defer wg.Done()
-						g := &hwRecGun{Gun: guns[i], inst: fmt.Sprintf("i%d", i+1), mu: &mu, shots: &shots}
+						g := &hwRecGun{Gun: guns[i], inst: insts[i], mu: &mu, shots: &shots, agg: aggs[i]}
 						for k := 0; k < r; k++ {
+							if k > 0 && cr.gap > 0 {
+								time.Sleep(cr.gap) // a lower bound only: the instance idles AT LEAST this long
+							}
 							a, ok := prov.Acquire()
 							if !ok {
 								return
@@ -476,27 +713,32 @@ func hwConnMain(w *vt.Writer, maxN, reqs int) {
 				evs := rec.Drain() // before the target is closed: closing is not the gun's doing
 				tgt.Close()
 				_ = fs.Remove(path)
-				w.Emit(hwConnEv{Ev: "Run", Run: run, N: n, R: r, KeepAlive: ka, SSL: ssl})
+				w.Emit(hwConnEv{Ev: "Run", Run: run, N: n, R: r, KeepAlive: ka, SSL: ssl, Insts: insts, Opts: cr.optNote, GapMs: int(cr.gap / time.Millisecond)})
 				sort.SliceStable(shots, func(a, b int) bool { return shots[a].Inst < shots[b].Inst })
 				for _, s := range shots {
 					s.Run = run
 					w.Emit(s)
 				}
 				by := map[string]string{}
+				okBy := map[string]bool{}
 				for _, s := range shots {
 					by[s.URI] = s.Inst
+					okBy[s.URI] = s.OK
 				}
 				for _, ev := range evs {
 					o := hwConnEv{Ev: ev.Ev, Run: run, Conn: ev.Conn, State: ev.State, URI: ev.URI}
 					if ev.Ev == "Req" {
-						o.Inst = by[ev.URI] // join only: which instance shot the request this connection carried
+						o.Inst = by[ev.URI] // join only: which instance shot the request this connection carried ...
+						o.OK = okBy[ev.URI] // ... and whether that exchange ended with a complete answer (its sample)
 					}
 					w.Emit(o)
 				}
-				for _, s := range agg.drain() {
-					w.Emit(hwConnEv{Ev: "Sample", Run: run, Proto: s.Proto, Net: s.Net})
+				for _, agg := range aggs {
+					for _, s := range agg.drain() {
+						w.Emit(hwConnEv{Ev: "Sample", Run: run, Proto: s.Proto, Net: s.Net})
+					}
 				}
-				w.Emit(hwConnEv{Ev: "End", Run: run, N: n, R: r, KeepAlive: ka, SSL: ssl})
+				w.Emit(hwConnEv{Ev: "End", Run: run, N: n, R: r, KeepAlive: ka, SSL: ssl, Tolerant: cr.opts != nil})
 			}
 		}
 	}
